@@ -1563,6 +1563,40 @@ where
     }
 }
 
+/// Verification hooks (only with `--cfg sccache_verif`): lets an external harness
+/// drive the real request entry point (`Service::call`) of a mock service with
+/// protocol requests and observe the real `ServerStats`. Adds no behaviour.
+#[cfg(sccache_verif)]
+impl<C> SccacheService<C>
+where
+    C: CommandCreatorSync + Clone + Send + Sync + 'static,
+{
+    /// Run `req` through `Service::call`. Returns the immediate response and,
+    /// for a started compile, the future resolving to the `CompileFinished`.
+    #[allow(clippy::type_complexity)]
+    pub async fn verif_call(
+        &self,
+        req: Request,
+    ) -> Result<(
+        Response,
+        Option<Pin<Box<dyn Future<Output = Result<Response>> + Send>>>,
+    )> {
+        let mut me = Arc::new(self.clone());
+        match me.call(Message::WithoutBody(req)).await? {
+            Message::WithoutBody(r) => Ok((r, None)),
+            Message::WithBody(r, body) => Ok((r, Some(body))),
+        }
+    }
+}
+
+#[cfg(sccache_verif)]
+impl PerLanguageCount {
+    /// Copies of the per-language and the per-language-and-compiler maps.
+    pub fn verif_maps(&self) -> (HashMap<String, u64>, HashMap<String, u64>) {
+        (self.counts.clone(), self.adv_counts.clone())
+    }
+}
+
 #[derive(Serialize, Deserialize, Debug, Clone, Default)]
 pub struct PerLanguageCount {
     counts: HashMap<String, u64>,
